@@ -41,6 +41,7 @@ type Unit struct {
 	caseEntry *State
 	closureLit *ast.FuncLit
 	caseExits []*State
+	unreachable bool
 	casePanicBase int
 	siteN   map[token.Pos]int
 	inlineDepth int
@@ -516,6 +517,11 @@ func (u *Unit) execDesignatedCase(n *ast.SwitchStmt, st *State, f Flow) {
 	}
 	cs := u.fork(st, guard)
 	b := u.caseBlock
+	if u.unreachable {
+		u.addObl(b.ID()+"/unreachable", u.props, cs, "false", "case without contract is unreachable under the function's precondition", nil)
+		u.caseEntry = cs
+		return
+	}
 	pos := u.caseClause.Colon + 1
 	for _, c := range b.clauses("requires") {
 		ce := u.specEv(cs, pos)
